@@ -116,7 +116,21 @@ def finish(ctx, broken=None):
     for o, k in known_hits:
         print('KNOWN-FINDING: property=%s %s [%s %s at %s]' % (prop, k.get('what', o.detail), o.rule, o.key, o.loc))
     replay_paths = []
-    for i, o in enumerate(violations):
+    # one VIOLATION line per (rule, source location): template instantiations of the same
+    # construct are grouped (all of them stay in the evidence file)
+    groups = {}
+    for o in violations:
+        groups.setdefault((o.rule, o.loc), []).append(o)
+    for f in os.listdir(os.path.join(evdir, 'replay')):
+        if f.startswith(prop + '-'):
+            os.unlink(os.path.join(evdir, 'replay', f))
+    reported = []
+    for (r, l), os_ in groups.items():
+        o = os_[0]
+        if len(os_) > 1:
+            o = Ob(o.rule, o.key, False, o.loc, o.detail + ' [+%d more instance(s) of this construct: %s]' % (len(os_) - 1, ', '.join(x.key for x in os_[1:4])))
+        reported.append(o)
+    for i, o in enumerate(reported):
         rp = os.path.join(evdir, 'replay', '%s-%d.json' % (prop, i + 1))
         with open(rp, 'w') as f:
             json.dump({'property': prop, 'rule': o.rule, 'rule_text': ctx.rules.get(o.rule, ('', 0))[0], 'instance_key': o.key,
